@@ -12,6 +12,7 @@ CONSTANTS
   MCExtra = {1}
   MCMulti = {FALSE}
   MCHow = {"cni"}
+  MCSteal = FALSE
   MCEniGone = FALSE
   MCEnis = {1}
   BadDesign = "no_to_pod_rule"
